@@ -242,18 +242,24 @@ def imethod_response(op, result, ns, host=DEFAULT_HOST):
     return xml_bytes(envelope(_cim_xml.IMETHODRESPONSE(op, children)))
 
 
-def method_response(methodname, result):
+def method_response(methodname, result, decl=None):
     rv, outparams = result
     children = []
     if rv is not None:
         children.append(_cim_xml.RETURNVALUE(
-            _value_xml(rv), _ptype(rv), embedded_object=_emb(rv)))
+            _value_xml(rv), _ptype(rv, decl.return_type if decl else None),
+            embedded_object=_emb(rv)))
+    if outparams is not None and not hasattr(outparams, 'items'):
+        outparams = {p.name: p for p in outparams}
     for pname, p in (outparams or {}).items():
         if isinstance(p, CIMParameter):
             val, declared = p.value, p.type
             emb = p.embedded_object or _emb(val)
         else:
             val, declared, emb = p, None, _emb(p)
+            if decl is not None and pname in decl.parameters:
+                declared = decl.parameters[pname].type
+                emb = emb or decl.parameters[pname].embedded_object
         children.append(_cim_xml.PARAMVALUE(
             pname, _value_xml(val), _ptype(val, declared),
             embedded_object=emb))
@@ -340,12 +346,33 @@ class Facade:
                                       exc.status_description)
             return imethod_response(op, result, ns, self.host)
         _, mname, path, params = decoded
+        decl = self.method_declaration(path, mname)
+        if decl is not None:
+            # a NULL parameter value carries neither type nor arrayness on the
+            # wire; a server takes them from the method declaration
+            fixed = []
+            for p in params:
+                d = decl.parameters.get(p.name)
+                if p.value is None and d is not None:
+                    p = CIMParameter(p.name, d.type, value=None,
+                                     is_array=d.is_array,
+                                     embedded_object=d.embedded_object)
+                fixed.append(p)
+            params = fixed
         try:
             result = self.fconn._mock_methodcall(mname, path, Params=params)
         except CIMError as exc:
             return error_response(mname, exc.status_code,
                                   exc.status_description, extrinsic=True)
-        return method_response(mname, result)
+        return method_response(mname, result, decl)
+
+    def method_declaration(self, path, mname):
+        try:
+            store = self.fconn.cimrepository.get_class_store(path.namespace)
+            cls = store.get(path.classname)
+            return cls.methods.get(mname)
+        except Exception:  # pylint: disable=broad-except
+            return None
 
     def __call__(self, request):
         body = request.body
